@@ -549,6 +549,7 @@ fn violates(sc: &Scenario, class: &str) -> bool {
 }
 
 pub fn minimise(v: &Violation) -> Violation {
+    start_minimise_clock(40);
     let Some(mut sc) = Scenario::from_json(&v.case) else { return v.clone() };
     let class = v.class.clone();
     if !violates(&sc, &class) {
